@@ -28,6 +28,7 @@ func (ft *FT) assign(lhs ast.Expr, v Val, define bool) {
 			return
 		}
 		if l.Obj != nil {
+			defer ft.noteTrust(l.Obj, v)
 			if vr := ft.vars[l.Obj]; vr != nil && define {
 				ft.declare(l, v.T, v.Pts)
 				return
@@ -157,6 +158,9 @@ func (ft *FT) valueSpec(vs *ast.ValueSpec, global bool) {
 			continue
 		}
 		ft.declare(n, v.T, v.Pts)
+		if len(vs.Values) != 0 {
+			ft.noteTrust(n.Obj, v)
+		}
 		if len(vs.Values) == 0 && n.Obj != nil {
 			if vr := ft.vars[n.Obj]; vr != nil && !vr.ZeroDecl {
 				vr.ZeroDecl = true
